@@ -381,3 +381,60 @@ func WithTimeout(d time.Duration, f func()) bool {
 		return false
 	}
 }
+
+// LagProbe measures how late this process's goroutines are being scheduled while a timing-sensitive
+// scenario runs: a goroutine sleeps 500 µs in a loop and records the largest oversleep.  A scenario whose
+// verdict depends on the library reacting within a fraction of a configured timeout is only conclusive
+// if the environment itself was that responsive.
+type LagProbe struct {
+	stop chan struct{}
+	done chan struct{}
+	max  time.Duration
+}
+
+func StartLagProbe() *LagProbe {
+	p := &LagProbe{stop: make(chan struct{}), done: make(chan struct{})}
+	go func() {
+		defer close(p.done)
+		for {
+			t0 := time.Now()
+			select {
+			case <-p.stop:
+				return
+			case <-time.After(500 * time.Microsecond):
+			}
+			if lag := time.Since(t0) - 500*time.Microsecond; lag > p.max {
+				p.max = lag
+			}
+		}
+	}()
+	return p
+}
+
+// Stop ends the probe and returns the largest scheduling lag seen.
+func (p *LagProbe) Stop() time.Duration {
+	close(p.stop)
+	<-p.done
+	return p.max
+}
+
+// MaxGapS2C is the largest gap between consecutive server-to-client frames (control frames included) that
+// the proxy forwarded on connection conn, up to the last one — the peer's activity as seen on the wire.
+func (e *Env) MaxGapS2C(conn int) (time.Duration, int) {
+	var last time.Time
+	var max time.Duration
+	n := 0
+	for _, f := range e.PX.Frames() {
+		if f.Conn != conn || f.Dir != "s2c" {
+			continue
+		}
+		if n > 0 {
+			if g := f.At.Sub(last); g > max {
+				max = g
+			}
+		}
+		last = f.At
+		n++
+	}
+	return max, n
+}
